@@ -9,8 +9,9 @@ PROPERTY_ID = "C31"
 LEVEL = "exploration"
 RULE = ("C01-style generated programs without recursion and without evidence (facts, probabilistic facts incl. "
         "duplicates and probability 0/1, annotated disjunctions with/without bodies, probabilistic rules, several "
-        "clauses per head, stratified negation; 1-3 ground or non-ground positive queries); programs whose predicate "
-        "graph is recursive are dropped. The program text is written to a file and problog.tasks.bayesnet.main "
+        "clauses per head, body disjunctions, stratified negation - every third program is drawn with many negative "
+        "body literals; 1-3 ground or non-ground positive queries); programs whose predicate graph is recursive are "
+        "dropped. The program text is written to a file and problog.tasks.bayesnet.main "
         "itself is run on it (its LogicDAG.createFrom(label_all=True, keep_order=True, ...) call and its "
         "formula_to_bn call are wrapped by recording spies to get at the PGM and at swallowed exceptions); "
         "the PGM's variables / Factor tables / OrCPT parent-value lists are copied into "
